@@ -206,7 +206,7 @@ class Engine:
         """canonical observation of one case: dict(status, opened, mods, inits, conf) with FILE NAMES as identities"""
         mark = self._mark()
         rc, o, e, m = self.run(case, D, ["-L", "-d"], mark)
-        obs = {"rc": rc, "disp": {}}
+        obs = {"rc": rc, "disp": {}, "raw": {"stdout": o[-1500:], "stderr": e[-1500:], "marker": m[-600:]}}
         if "Couldn't load any pdsh modules" in e:
             obs["status"] = "REFUSED"
         elif "no modules found" in e:
